@@ -276,6 +276,18 @@ impl Datagrams {
         + self.contents.len()
     }
 
+    /// Whether a relay can forward these datagrams to their destination.
+    ///
+    /// The contents must not be empty and the resulting [`RelayToClientMsg::Datagrams`]
+    /// frame, which carries the sender's [`EndpointId`], must fit into [`MAX_PACKET_SIZE`].
+    /// These are the conditions under which the relay's sink accepts the frame.
+    #[cfg(feature = "server")]
+    pub(crate) fn is_forwardable(&self) -> bool {
+        let frame_len =
+            FrameType::RelayToClientDatagram.encoded_len() + EndpointId::LENGTH + self.encoded_len();
+        !self.contents.is_empty() && frame_len <= MAX_PACKET_SIZE
+    }
+
     #[allow(clippy::len_zero, clippy::result_large_err)]
     fn from_bytes(mut bytes: Bytes, is_batch: bool) -> Result<Self, Error> {
         if is_batch {
